@@ -464,6 +464,9 @@ func isParamOrCaptured(v ssa.Value, name string) bool {
 	if p, ok := v.(*ssa.Parameter); ok {
 		return p.Name() == name
 	}
+	if an.IsParamNamed(v, name) { // (the same value handed in as a field of a by-value request record)
+		return true
+	}
 	u, ok := v.(*ssa.UnOp)
 	if !ok || u.Op != token.MUL {
 		return false
